@@ -124,11 +124,14 @@ def probes_for(name, rec):
         mid = lo + (hi - lo) * 0.37
         if mid != 0 and math.isfinite(mid):
             cand.append((mid, 'bound', 'interior'))
+        dflt = rec['default']
+        if dflt is not None and isinstance(dflt, (int, float)) and not (lo <= float(dflt) <= hi) and float(dflt) != -1.0:
+            cand.append((float(dflt), 'outside', 'declared_default_outside_range'))   # e.g. an unset DefaultValue of 0.0
         for v, kind, label in cand:
             if not math.isfinite(v):
                 continue
-            if rec['default'] is not None and float(v) == float(rec['default']):
-                continue        # the documented "not provided" sentinel / default
+            if dflt is not None and float(v) == float(dflt) == -1.0:
+                continue        # the documented "not provided" sentinel
             out.append((repr(float(v)), kind, label))
     else:
         rng = rec['range']
@@ -144,7 +147,7 @@ def probes_for(name, rec):
         if inner:
             cand.append((inner[len(inner) // 2], 'bound', 'interior'))
         for v, kind, label in cand:
-            if rec['default'] is not None and v == rec['default']:
+            if rec['default'] is not None and v == rec['default'] == -1:
                 continue
             out.append((str(v), kind, label))
     return out
